@@ -19,6 +19,19 @@ func ConvertTensorDtype(t tensor.Tensor, newType int32) (tensor.Tensor, error) {
 
 	backing := IfScalarToSlice(t.Data())
 
+	// IfScalarToSlice leaves unsigned scalars as they are: wrap them here, such that the
+	// type assertions below also hold for rank-0 tensors of an unsigned type.
+	switch data := backing.(type) {
+	case uint8:
+		backing = []uint8{data}
+	case uint16:
+		backing = []uint16{data}
+	case uint32:
+		backing = []uint32{data}
+	case uint64:
+		backing = []uint64{data}
+	}
+
 	switch t.Dtype() {
 	case tensor.Float32:
 		newBacking, err = convertBacking(backing.([]float32), newType)
